@@ -12,7 +12,10 @@ pub mod c07;
 pub mod c08;
 pub mod c10;
 pub mod c13;
+pub mod c16;
+pub mod c17;
 pub mod c18;
+pub mod c19;
 pub mod c14;
 pub mod c15;
 
@@ -29,12 +32,16 @@ pub trait Property: Sync {
     fn nontrivial_floor(&self, _ctx: &Ctx) -> usize {
         2
     }
+    /// network a part's cases must be replayed under (None: the property's default)
+    fn part_network(&self, _part: &str) -> Option<&'static str> {
+        None
+    }
     fn run(&self, ctx: &Ctx, ev: &mut Evidence) -> Vec<Found>;
     fn replay(&self, part: &str, case: &Value) -> CheckResult;
 }
 
 pub fn all() -> Vec<Box<dyn Property>> {
-    vec![Box::new(c01::C01), Box::new(c02::C02), Box::new(c03::C03), Box::new(c05::C05), Box::new(c06::C06), Box::new(c07::C07), Box::new(c08::C08), Box::new(c10::C10), Box::new(c13::C13), Box::new(c14::C14), Box::new(c15::C15), Box::new(c18::C18)]
+    vec![Box::new(c01::C01), Box::new(c02::C02), Box::new(c03::C03), Box::new(c05::C05), Box::new(c06::C06), Box::new(c07::C07), Box::new(c08::C08), Box::new(c10::C10), Box::new(c13::C13), Box::new(c14::C14), Box::new(c15::C15), Box::new(c16::C16), Box::new(c17::C17), Box::new(c18::C18), Box::new(c19::C19)]
 }
 
 pub fn get(id: &str) -> Option<Box<dyn Property>> {
